@@ -1,0 +1,50 @@
+//go:build verif
+
+// Contracts for the deductive verifier in /verif (comment-only; compiled only with -tags verif).
+// Floating point is modelled over the reals (A-FLOAT: no rounding, no NaN/Inf); formatting is opaque.
+package types
+
+//@ define NUM(r) = ufreal("gjson_float<tidwall_gjson_Result>", r)
+
+// The stored aggregate is the formatted maximum / minimum / mean of the extracted numbers (C17).
+//@ func Max
+//@   property C17
+//@   returns s
+//@   requires len(data) > 0
+//@   requires forall j:Int :: 0 <= j && j < len(data) ==> NUM(data[j]) >= 0 - 179769313486231570814527423731704356798070567525844996598917476803157260780028538760589558632766878171540458953514382464234321326889464182768467546703537516986049910576551282076245490090389328944075868508455133942304583236903222948165808559332123348274797826204144723168738177180919299881250404026184124858368
+//@   invariant #1 idx: rangeindex >= 0 - 1 && rangeindex < len(data)
+//@   invariant #1 start: rangeindex == 0 - 1 ==> maxNumber <= 0 - 179769313486231570814527423731704356798070567525844996598917476803157260780028538760589558632766878171540458953514382464234321326889464182768467546703537516986049910576551282076245490090389328944075868508455133942304583236903222948165808559332123348274797826204144723168738177180919299881250404026184124858368
+//@   invariant #1 upper: forall j:Int :: 0 <= j && j <= rangeindex ==> NUM(data[j]) <= maxNumber
+//@   invariant #1 attained: rangeindex >= 0 ==> (exists j:Int :: 0 <= j && j <= rangeindex && maxNumber == NUM(data[j]))
+//@   ensures formatted: s == ufstr("format_float", maxNumber, 102, 8, 64)
+//@   ensures upper:     forall j:Int :: 0 <= j && j < len(data) ==> NUM(data[j]) <= maxNumber
+//@   ensures attained:  exists j:Int :: 0 <= j && j < len(data) && maxNumber == NUM(data[j])
+//@ end
+
+//@ func Min
+//@   property C17
+//@   returns s
+//@   requires len(data) > 0
+//@   requires forall j:Int :: 0 <= j && j < len(data) ==> NUM(data[j]) <= 179769313486231570814527423731704356798070567525844996598917476803157260780028538760589558632766878171540458953514382464234321326889464182768467546703537516986049910576551282076245490090389328944075868508455133942304583236903222948165808559332123348274797826204144723168738177180919299881250404026184124858368
+//@   invariant #1 idx: rangeindex >= 0 - 1 && rangeindex < len(data)
+//@   invariant #1 start: rangeindex == 0 - 1 ==> minNum == 179769313486231570814527423731704356798070567525844996598917476803157260780028538760589558632766878171540458953514382464234321326889464182768467546703537516986049910576551282076245490090389328944075868508455133942304583236903222948165808559332123348274797826204144723168738177180919299881250404026184124858368
+//@   invariant #1 lower: forall j:Int :: 0 <= j && j <= rangeindex ==> NUM(data[j]) >= minNum
+//@   invariant #1 attained: rangeindex >= 0 ==> (exists j:Int :: 0 <= j && j <= rangeindex && minNum == NUM(data[j]))
+//@   ensures formatted: s == ufstr("format_float", minNum, 102, 8, 64)
+//@   ensures lower:     forall j:Int :: 0 <= j && j < len(data) ==> NUM(data[j]) >= minNum
+//@   ensures attained:  exists j:Int :: 0 <= j && j < len(data) && minNum == NUM(data[j])
+//@ end
+
+// left-fold sum of the first n numbers (definitional axioms)
+//@ define FSUM(d, n) = ufreal("fsum", d, n)
+//@ axiom fsumStep(d, n)
+//@   ensures FSUM(d, 0) == 0 && FSUM(d, n + 1) == FSUM(d, n) + NUM(d[n])
+//@ func Avg
+//@   property C17
+//@   returns s
+//@   requires len(data) > 0
+//@   invariant #1 idx: rangeindex >= 0 - 1 && rangeindex < len(data)
+//@   invariant #1 sum: total == FSUM(data, rangeindex + 1)
+//@   uses fsumStep(data, 0)
+//@   ensures mean: s == ufstr("format_float", FSUM(data, len(data)) / real(len(data)), 102, 8, 64)
+//@ end
